@@ -175,6 +175,13 @@ macro_rules! define_moments_common {
                 let delta = x - self.avg;
                 let n = self.n.to_f64().unwrap();
                 self.avg += delta / n;
+                if self.n == 1 {
+                    // A single observation has no spread: all central moments stay
+                    // zero. (The general update would multiply a zero coefficient
+                    // with `delta^p`, which overflows to infinity for large `x`
+                    // and high orders, yielding NaN.)
+                    return;
+                }
 
                 let mut coeff_delta = delta;
                 let over_n = 1. / n;
